@@ -1,8 +1,7 @@
 /* Engine `input` (C14): drives key and mouse routing of /repo/src/window.c through the public API.
  *
  * Operations (one per line):
- *   new L C                     terminal L x C (headless xterm), root window = id 0, then one PRESS of button 0 at
- *                               (-1,-1) with nothing bound, which initialises the root's press memory
+ *   new L C                     terminal L x C (headless xterm), root window = id 0
  *   win P t l n c F             new window (next id) under P; F = bit mask HIDDEN=1 LOWEST=2 ROOT_PARENT=4 STEAL=8
  *   bind W k|m E...             bind a key / mouse handler on W.  E = <ret>[,<a><id>]*  is the behaviour of one
  *                               invocation: run the actions, return ret (1 = claim).  Invocation i uses entry min(i, n-1).
@@ -230,10 +229,6 @@ static void engine_op(int argc, char **argv)
     tickit_term_bind_event(tt, TICKIT_TERM_ON_KEY, 0, on_term_unhandled, NULL);
     tickit_term_bind_event(tt, TICKIT_TERM_ON_MOUSE, 0, on_term_unhandled, NULL);
     nW = 1; alive[0] = 1; owned[0] = 1;
-    /* The press memory of the root (mouse_last_button/line/col) is uninitialised until the first PRESS, and a DRAG
-     * reads it.  Every history therefore starts with one PRESS (button 0 at cell -1,-1) while nothing is bound yet. */
-    tickit_term_emit_mouse(tt, &(TickitMouseEventInfo){ .type = TICKIT_MOUSEEV_PRESS, .button = 0, .line = -1, .col = -1, .mod = 0 });
-    first_item = 1; h_olen = 0;
     tickit_window_bind_event(W[0], TICKIT_WINDOW_ON_DESTROY, TICKIT_BIND_DESTROY, on_destroy, (void *)0L);
     dump();
     return;
